@@ -957,7 +957,10 @@ pub fn gen_world(tape: &mut Tape, cfg: &GenCfg) -> World {
     } else {
       *tape.pick(Stream::World, &cfg.langs)
     };
+    // (a declaration file is one by its `.d.ts` name only: the content types
+    // for TypeScript do not distinguish it)
     let by_header = cfg.allow_by_header
+      && !lang.is_declaration()
       && !host.starts_with("file:")
       && tape.draw(Stream::World, 6) == 5;
     let url = if by_header {
@@ -1078,6 +1081,9 @@ pub fn gen_world(tape: &mut Tape, cfg: &GenCfg) -> World {
         if cfg.allow_pragmas
           && !form.is_comment_form()
           && !form.is_ts_type()
+          // a leading comment of the statement is not a leading comment of
+          // the `import(...)` call expression inside it
+          && !form.is_dynamic()
           && tape.draw(Stream::World, 10) == 9
         {
           let t = &targets[tape.draw(Stream::World, targets.len() as u32) as usize];
